@@ -292,6 +292,10 @@ func c08Scenario(sc *metaScn, idx int) {
 			sc.after(sc.do(sc.actor("member"), "leave", nil, ""))
 			sc.after(sc.do(sc.actor("member"), "setSelf", nil, "JRWS"))
 			sc.after(sc.do(sc.actor("member"), "setPrivate", nil, "offline"))
+			// ... removes the subscription and subscribes again: the stored row keeps its private data
+			sc.after(sc.do(sc.actor("member"), "unsub", nil, ""))
+			sc.after(sc.do(sc.actor("member"), "sub", nil, ""))
+			r.Hit("grp_resubscribed_with_stored_private")
 		}
 	} else {
 		a, b := sc.actor("peerA"), sc.actor("peerB")
@@ -308,6 +312,7 @@ func c08Scenario(sc *metaScn, idx int) {
 			sc.after(sc.do(a, "noteRecv", nil, "2"))
 			sc.after(sc.do(a, "noteRead", nil, "1"))
 			sc.after(sc.do(a, "delMsg", nil, "1"))
+			sc.after(sc.do(a, "setPrivate", nil, "kept across the unsubscription"))
 			sc.after(sc.do(a, "unsub", nil, ""))
 			sc.after(sc.do(a, "sub", nil, ""))
 			r.Hit("p2p_resubscribed_while_loaded")
